@@ -47,8 +47,8 @@ def run(F, R, tier):
     with open(SPEC) as f:
         spec = json.load(f)
     q = F.crate("quill")
-    r09_1(q, R, spec)
-    r09_2(q, R, spec)
+    roles = r09_2(q, R, spec)
+    r09_1(q, R, spec, roles)
     return ("A5 decision tables of the merge combiners, of Combination::map, of the zip helpers and of the Names/Namespaces "
             "containers, evaluated cell by cell on the typed HIR and compared with spec/merge.json; A4 level alignment of the "
             "17 output fields of Mappings::merge (combiner by declared field type, projection path and level by closure parameter, "
@@ -83,18 +83,15 @@ def _is_err(v):
     return v[0] == "err"
 
 
-def _anchors(q, R, rid):
-    """Bodies (normalised) of everything R09.1 evaluates. Missing -> anchor violation."""
+ROLE_LABEL = (("names", "merge_names"), ("equal", "merge_equal"), ("javadoc", "merge_javadoc"), ("javadoc_top", "merge_javadoc_ab"),
+              ("namespaces", "merge_namespaces"), ("zip", "zip_map_combination"), ("map", "Combination::map"))
+
+
+def _anchors(q, R, rid, roles):
+    """Bodies (normalised) of everything R09.1 evaluates.  The combiners are taken by *role* from the call sites in
+    Mappings::merge (collected by R09.2), so a renamed private helper is still found; the role label is only the instance key.
+    -> (A: name -> body, F: label -> [bodies])"""
     want = {
-        "merge_names": q.fn("merge_names", within=MERGE),
-        "merge_equal": q.fn("merge_equal", within=MERGE),
-        "merge_javadoc": q.fn("merge_javadoc", within=MERGE),
-        "merge_javadoc_ab": q.fn("merge_javadoc_ab", within=MERGE),
-        "merge_namespaces": q.fn("merge_namespaces", within=MERGE),
-        "Combination::map": q.fn("map", impl_ty=DM + "Combination"),
-        "zip_map": q.fn("zip_map", within=DM),
-        "zip_map_combination": q.fn("zip_map_combination", within=DM),
-        "map_combine_one_side": q.fn("map_combine_one_side", within=DM),
         "Names: TryFrom<[Option<T>; N]>": q.fn("try_from", impl_ty=NAMES + "<", trait="TryFrom<[core::option::Option<T>; N]>"),
         "&[Option<T>; N]: From<&Names>": q.fn("from", impl_ty="&'a [core::option::Option<T>; N]", trait="From<&'a " + NAMES),
         "Namespaces: TryFrom<[String; N]>": q.fn("try_from", impl_ty=NSS + "<", trait="TryFrom<[alloc::string::String; N]>"),
@@ -111,7 +108,20 @@ def _anchors(q, R, rid):
             ok = False
         else:
             out[name] = U.norm_body(b)
-    return out if ok else None
+    F = {}
+    for role, label in ROLE_LABEL:
+        keys = sorted(roles.get(role) or {})
+        if role == "javadoc_top" and not keys and roles.get("javadoc"):
+            continue            # the top level uses the one-argument javadoc combiner as well
+        if not R.anchor(rid, "%s (the %s combiner called from Mappings::merge)" % (label, role), bool(keys)):
+            ok = False
+            continue
+        F[label] = [U.norm_body(q.by_key[k]) for k in keys]
+    return (out, F) if ok else (None, None)
+
+
+def _labels(label, bodies):
+    return [(label if i == 0 else "%s#%d" % (label, i + 1), b) for i, b in enumerate(bodies)]
 
 
 class _Ev(U.Ev):
@@ -141,21 +151,36 @@ class _Ev(U.Ev):
 
 
 # ===================================================================================== R09.1
-def r09_1(q, R, spec):
+def r09_1(q, R, spec, roles):
     rid = "R09.1"
     R.rule(rid, "combiner decision tables = spec/merge.json: merge_names (column placement per side, first names must agree), "
                 "merge_javadoc(_ab) (whichever side has a comment; different comments -> Err), merge_equal, merge_namespaces, "
                 "Combination::map, zip_map (A/B/AB by presence in first/second map, key union, key kept, combiner applied), "
                 "zip_map_combination, map_combine_one_side; Names/Namespaces conversions and Index keep array positions")
-    A = _anchors(q, R, rid)
+    A, F = _anchors(q, R, rid, roles)
     if A is None:
         return
-    inline = {A["Combination::map"]["key"]: A["Combination::map"]}
+    # private helpers of the two modules are inlined by the evaluator (a rule extracted into a helper gives the same table)
+    helpers = {b["key"]: U.norm_body(b) for b in q.bodies
+               if b["key"].startswith((MERGE, DM)) and "{closure" not in b["key"] and b.get("dk", "Fn") in ("Fn", "AssocFn")}
+    inline = dict(helpers)
+    zip_keys = set()           # the functions that iterate (evaluated per element below, not as tables)
+    for zb in F["zip_map_combination"]:
+        for n in H.walk(zb["body"]):
+            if n.get("k") == "call":
+                ck = (n.get("callee") or {}).get("key")
+                if ck in helpers and ck != zb["key"]:
+                    zip_keys.add(ck)
+    for k in zip_keys:
+        inline.pop(k, None)
     # the evaluator has no store: a function it evaluates must not mutate anything (fail closed)
-    for name, body in A.items():
+    evaluated = dict(A)
+    evaluated.update({k: v for k, v in inline.items()})
+    for name, body in evaluated.items():
         muts = U.unmodelled_mutations(body["body"], allow_ref_mut=name.startswith(("Names: IndexMut", "Namespaces: IndexMut")))
         if muts:
-            R.unrecognised(rid, "fn:" + name, "mutation in a function evaluated as a table: %s" % H.render(muts[0])[:120], muts[0].get("sp"))
+            R.unrecognised(rid, "fn:" + body.get("name", name) if name not in A else "fn:" + name,
+                           "mutation in a function evaluated as a table: %s" % H.render(muts[0])[:120], muts[0].get("sp"))
 
     def jd_access(args):
         v = args[0]
@@ -191,40 +216,40 @@ def r09_1(q, R, spec):
                        detail="namespace id i addresses array position i")
 
     # ---- merge_names
-    b = A["merge_names"]
     sn = spec["names"]
 
     def cols(cell, env):
         return [NONE if c is None else env[c] for c in sn[cell]]
 
-    variants = [("both", "A1", "B1"), ("a1-absent", None, "B1"), ("b1-absent", "A1", None)]
-    for tag, a1, b1 in variants:
-        env = {"a0": _some("S"), "a1": _opt(a1), "b0": _some("S"), "b1": _opt(b1)}
-        na = _names_val([env["a0"], env["a1"]])
-        nb = _names_val([env["b0"], env["b1"]])
-        if tag != "b1-absent":
-            got = ev().run_fn(b, [T.V("A", na)])
-            want = _ok(_names_val(cols("A", env)))
-            R.inst(rid, "cell:merge_names/A/%s" % tag, got == want, sp=b["sp"], expect=T.show(want), got=T.show(got),
-                   detail="entry only in A: A's names in columns s,a; column b absent")
-        if tag != "a1-absent":
-            got = ev().run_fn(b, [T.V("B", nb)])
-            want = _ok(_names_val(cols("B", env)))
-            R.inst(rid, "cell:merge_names/B/%s" % tag, got == want, sp=b["sp"], expect=T.show(want), got=T.show(got),
-                   detail="entry only in B: B's names in columns s,b; column a absent")
-        got = ev().run_fn(b, [T.V("AB", na, nb)])
+    for label, b in _labels("merge_names", F["merge_names"]):
+        variants = [("both", "A1", "B1"), ("a1-absent", None, "B1"), ("b1-absent", "A1", None)]
+        for tag, a1, b1 in variants:
+            env = {"a0": _some("S"), "a1": _opt(a1), "b0": _some("S"), "b1": _opt(b1)}
+            na = _names_val([env["a0"], env["a1"]])
+            nb = _names_val([env["b0"], env["b1"]])
+            if tag != "b1-absent":
+                got = ev().run_fn(b, [T.V("A", na)])
+                want = _ok(_names_val(cols("A", env)))
+                R.inst(rid, "cell:%s/A/%s" % (label, tag), got == want, sp=b["sp"], expect=T.show(want), got=T.show(got),
+                       detail="entry only in A: A's names in columns s,a; column b absent")
+            if tag != "a1-absent":
+                got = ev().run_fn(b, [T.V("B", nb)])
+                want = _ok(_names_val(cols("B", env)))
+                R.inst(rid, "cell:%s/B/%s" % (label, tag), got == want, sp=b["sp"], expect=T.show(want), got=T.show(got),
+                       detail="entry only in B: B's names in columns s,b; column a absent")
+            got = ev().run_fn(b, [T.V("AB", na, nb)])
+            want = _ok(_names_val(cols("AB_same_first", env)))
+            R.inst(rid, "cell:%s/AB/same-first/%s" % (label, tag), got == want, sp=b["sp"], expect=T.show(want), got=T.show(got))
+        for tag, a0, b0 in (("different", "S", "T"), ("a0-absent", None, "S"), ("b0-absent", "S", None)):
+            got = ev().run_fn(b, [T.V("AB", _names_val([_opt(a0), _some("A1")]), _names_val([_opt(b0), _some("B1")]))])
+            R.inst(rid, "cell:%s/AB/first-%s" % (label, tag), _is_err(got) == (sn["AB_different_first"] == "Err"), sp=b["sp"],
+                   expect="Err", got=T.show(got), detail="entries whose first (shared-namespace) names differ cannot be joined")
+        env = {"a0": NONE, "a1": _some("A1"), "b0": NONE, "b1": _some("B1")}
+        got = ev().run_fn(b, [T.V("AB", _names_val([NONE, env["a1"]]), _names_val([NONE, env["b1"]]))])
         want = _ok(_names_val(cols("AB_same_first", env)))
-        R.inst(rid, "cell:merge_names/AB/same-first/%s" % tag, got == want, sp=b["sp"], expect=T.show(want), got=T.show(got))
-    for tag, a0, b0 in (("different", "S", "T"), ("a0-absent", None, "S"), ("b0-absent", "S", None)):
-        got = ev().run_fn(b, [T.V("AB", _names_val([_opt(a0), _some("A1")]), _names_val([_opt(b0), _some("B1")]))])
-        R.inst(rid, "cell:merge_names/AB/first-%s" % tag, _is_err(got) == (sn["AB_different_first"] == "Err"), sp=b["sp"],
-               expect="Err", got=T.show(got), detail="entries whose first (shared-namespace) names differ cannot be joined")
-    env = {"a0": NONE, "a1": _some("A1"), "b0": NONE, "b1": _some("B1")}
-    got = ev().run_fn(b, [T.V("AB", _names_val([NONE, env["a1"]]), _names_val([NONE, env["b1"]]))])
-    want = _ok(_names_val(cols("AB_same_first", env)))
-    R.inst(rid, "cell:merge_names/AB/same-first/both-first-absent", got == want, sp=b["sp"], expect=T.show(want), got=T.show(got))
+        R.inst(rid, "cell:%s/AB/same-first/both-first-absent" % label, got == want, sp=b["sp"], expect=T.show(want), got=T.show(got))
 
-    # ---- merge_javadoc / merge_javadoc_ab
+    # ---- merge_javadoc (one combination argument) / merge_javadoc_ab (two node arguments)
     sj = spec["javadoc"]
 
     def node(c):
@@ -235,123 +260,141 @@ def r09_1(q, R, spec):
             return None
         return _ok(NONE if val is None else _some("comment-" + val))
 
-    for cell, val in sj.items():
-        if cell.startswith("_"):
-            continue
-        side, ca, cb = cell.split("/")
-        for fname in ("merge_javadoc", "merge_javadoc_ab"):
-            fb = A[fname]
-            if fname == "merge_javadoc":
-                arg = {"A": lambda: T.V("A", node(ca)), "B": lambda: T.V("B", node(cb)), "AB": lambda: T.V("AB", node(ca), node(cb))}[side]()
-                got = ev().run_fn(fb, [arg])
-            else:
+    jfns = _labels("merge_javadoc", F["merge_javadoc"]) + _labels("merge_javadoc_ab", F.get("merge_javadoc_ab", []))
+    for label, fb in jfns:
+        two = len(fb["params"]) == 2
+        for cell, val in sj.items():
+            if cell.startswith("_"):
+                continue
+            side, ca, cb = cell.split("/")
+            if two:
                 if side != "AB":
                     continue
                 got = ev().run_fn(fb, [node(ca), node(cb)])
+            else:
+                arg = {"A": lambda: T.V("A", node(ca)), "B": lambda: T.V("B", node(cb)), "AB": lambda: T.V("AB", node(ca), node(cb))}[side]()
+                got = ev().run_fn(fb, [arg])
             w = want_jd(val)
             ok = _is_err(got) if w is None else got == w
-            R.inst(rid, "cell:%s/%s" % (fname, cell), ok, sp=fb["sp"], expect="Err" if w is None else T.show(w), got=T.show(got),
+            R.inst(rid, "cell:%s/%s" % (label, cell), ok, sp=fb["sp"], expect="Err" if w is None else T.show(w), got=T.show(got),
                    detail="comment of whichever side has one; two different comments are an error")
 
     # ---- merge_equal
-    fb = A["merge_equal"]
-    for cell, val in spec["equal"].items():
-        if cell.startswith("_"):
-            continue
-        side, ca, cb = cell.split("/")
-        arg = {"A": lambda: T.V("A", ("s", ca)), "B": lambda: T.V("B", ("s", cb)), "AB": lambda: T.V("AB", ("s", ca), ("s", cb))}[side]()
-        got = ev().run_fn(fb, [arg])
-        ok = _is_err(got) if val == "Err" else got == _ok(("s", val))
-        R.inst(rid, "cell:merge_equal/%s" % cell, ok, sp=fb["sp"], expect=val, got=T.show(got))
+    for label, fb in _labels("merge_equal", F["merge_equal"]):
+        for cell, val in spec["equal"].items():
+            if cell.startswith("_"):
+                continue
+            side, ca, cb = cell.split("/")
+            arg = {"A": lambda: T.V("A", ("s", ca)), "B": lambda: T.V("B", ("s", cb)), "AB": lambda: T.V("AB", ("s", ca), ("s", cb))}[side]()
+            got = ev().run_fn(fb, [arg])
+            ok = _is_err(got) if val == "Err" else got == _ok(("s", val))
+            R.inst(rid, "cell:%s/%s" % (label, cell), ok, sp=fb["sp"], expect=val, got=T.show(got))
 
     # ---- merge_namespaces
-    fb = A["merge_namespaces"]
-    for cell, row in spec["namespaces"].items():
-        if cell.startswith("_"):
-            continue
-        a = _st("Namespaces", names=("t", [("s", x) for x in row["a"]]))
-        bb = _st("Namespaces", names=("t", [("s", x) for x in row["b"]]))
-        got = ev().run_fn(fb, [a, bb])
-        if row["out"] == "Err":
-            ok = _is_err(got)
-            want_s = "Err"
-        else:
-            g = got
-            if g[0] == "v" and g[1] == "Ok" and g[2] and g[2][0][0] == "st":
-                g = g[2][0][2].get("names")
-            want_v = ("t", [("s", x) for x in row["out"]])
-            ok = g == want_v
-            want_s = T.show(want_v)
-        R.inst(rid, "cell:merge_namespaces/%s" % cell, ok, sp=fb["sp"], expect=want_s, got=T.show(got))
+    for label, fb in _labels("merge_namespaces", F["merge_namespaces"]):
+        for cell, row in spec["namespaces"].items():
+            if cell.startswith("_"):
+                continue
+            a = _st("Namespaces", names=("t", [("s", x) for x in row["a"]]))
+            bb = _st("Namespaces", names=("t", [("s", x) for x in row["b"]]))
+            got = ev().run_fn(fb, [a, bb])
+            if row["out"] == "Err":
+                ok = _is_err(got)
+                want_s = "Err"
+            else:
+                g = got
+                if g[0] == "v" and g[1] == "Ok" and g[2] and g[2][0][0] == "st":
+                    g = g[2][0][2].get("names")
+                want_v = ("t", [("s", x) for x in row["out"]])
+                ok = g == want_v
+                want_s = T.show(want_v)
+            R.inst(rid, "cell:%s/%s" % (label, cell), ok, sp=fb["sp"], expect=want_s, got=T.show(got))
 
     # ---- Combination::map
-    fb = A["Combination::map"]
     f = T.sym("f")
-    for cell, arg, want in (("A", T.V("A", T.sym("p")), T.V("A", T.V("@f", T.sym("p")))),
-                            ("B", T.V("B", T.sym("p")), T.V("B", T.V("@f", T.sym("p")))),
-                            ("AB", T.V("AB", T.sym("p"), T.sym("q")), T.V("AB", T.V("@f", T.sym("p")), T.V("@f", T.sym("q"))))):
-        got = U.Ev().run_fn(fb, [arg, f])
-        R.inst(rid, "cell:Combination::map/%s" % cell, got == want, sp=fb["sp"], expect=T.show(want), got=T.show(got),
-               detail="map keeps the side and, for AB, the order of the two sides")
+    for label, fb in _labels("Combination::map", F["Combination::map"]):
+        for cell, arg, want in (("A", T.V("A", T.sym("p")), T.V("A", T.V("@f", T.sym("p")))),
+                                ("B", T.V("B", T.sym("p")), T.V("B", T.V("@f", T.sym("p")))),
+                                ("AB", T.V("AB", T.sym("p"), T.sym("q")), T.V("AB", T.V("@f", T.sym("p")), T.V("@f", T.sym("q"))))):
+            got = U.Ev(inline=inline).run_fn(fb, [arg, f])
+            R.inst(rid, "cell:%s/%s" % (label, cell), got == want, sp=fb["sp"], expect=T.show(want), got=T.show(got),
+                   detail="map keeps the side and, for AB, the order of the two sides")
 
-    # ---- zip_map_combination
-    fb = A["zip_map_combination"]
+    # ---- zip_map_combination: which helper gets what.  The helpers it delegates to are identified by role:
+    #      one-sided (map, closure) and two-sided (first map, second map, combiner).
+    one_side, two_side = {}, {}
 
-    def zmc(arg):
-        e = U.Ev()
-        e.calls = {"map_combine_one_side": lambda args: T.V("@one_side", args[0], e.apply(args[1], [T.sym("x")])) if len(args) == 2 else None,
-                   "zip_map": lambda args: T.V("@zip_map", *args)}
-        return e.run_fn(fb, [arg, T.sym("combiner")])
-    for cell, arg, want in (
-            ("A", T.V("A", T.sym("ma")), T.V("@one_side", T.sym("ma"), T.V("@combiner", T.V("A", T.sym("x"))))),
-            ("B", T.V("B", T.sym("mb")), T.V("@one_side", T.sym("mb"), T.V("@combiner", T.V("B", T.sym("x"))))),
-            ("AB", T.V("AB", T.sym("ma"), T.sym("mb")), T.V("@zip_map", T.sym("ma"), T.sym("mb"), T.sym("combiner")))):
-        got = zmc(arg)
-        R.inst(rid, "cell:zip_map_combination/%s" % cell, got == want, sp=fb["sp"], expect=T.show(want), got=T.show(got),
-               detail="children of a one-sided entry stay on that side; children of a two-sided entry are zipped, A's map first")
+    def show_term(v):
+        return T.show(v).replace("@def:", "").replace(DM, "")
 
-    # ---- map_combine_one_side and the last stage of zip_map: (key, value) -> Ok((key, combiner(value)?))
-    want_pair = _ok(("t", [T.sym("k"), T.V("?", T.V("@combiner", T.sym("v")))]))
-    for fname in ("map_combine_one_side", "zip_map"):
-        fb = A[fname]
+    for label, fb in _labels("zip_map_combination", F["zip_map_combination"]):
+        for cell, arg in (("A", T.V("A", T.sym("ma"))), ("B", T.V("B", T.sym("mb"))), ("AB", T.V("AB", T.sym("ma"), T.sym("mb")))):
+            e = U.Ev(inline=inline, term_keys=zip_keys)
+            got = e.run_fn(fb, [arg, T.sym("combiner")])
+            ok = False
+            if U.is_term(got) and got[1].startswith("@def:"):
+                k = got[1][5:]
+                a = got[2]
+                if cell in ("A", "B") and len(a) == 2 and a[1][0] == "closure":
+                    inner = e.apply(a[1], [T.sym("x")])
+                    got = T.V(got[1], a[0], inner)
+                    ok = a[0] == arg[2][0] and inner == T.V("@combiner", T.V(cell, T.sym("x")))
+                    if ok:
+                        one_side[k] = True
+                elif cell == "AB" and len(a) == 3:
+                    ok = a == [T.sym("ma"), T.sym("mb"), T.sym("combiner")]
+                    if ok:
+                        two_side[k] = True
+            want = {"A": "<one-sided helper>(ma, |x| combiner(A(x)))", "B": "<one-sided helper>(mb, |x| combiner(B(x)))",
+                    "AB": "<two-sided helper>(ma, mb, combiner)"}[cell]
+            R.inst(rid, "cell:%s/%s" % (label, cell), ok, sp=fb["sp"], expect=want, got=show_term(got),
+                   detail="children of a one-sided entry stay on that side; children of a two-sided entry are zipped, A's map first")
+
+    # ---- per element: (key, value) -> (key, combiner(..)?) — `.map(..).collect()` and `for .. { acc.insert(..) }` are the same
+    want_val = lambda x: T.V("?", T.V("@combiner", x))
+    for k in sorted(one_side):
+        fb = helpers[k]
         pids = H.param_ids(fb)
-        comb_id = pids[-1]
-        clos = [c for c in H.walk(fb["body"]) if c.get("k") == "closure" and _calls_local(c, comb_id)]
-        if not R.anchor(rid, "closure calling the combiner in " + fname, len(clos) == 1, sp=fb["sp"]):
+        if not R.anchor(rid, "map_combine_one_side(map, combiner)", len(pids) == 2, sp=fb["sp"]):
             continue
-        got = U.Ev().apply(("closure", clos[0], {comb_id: T.sym("combiner")}), [("t", [T.sym("k"), T.sym("v")])])
-        R.inst(rid, "pair:%s" % fname, got == want_pair, sp=clos[0]["sp"], expect=T.show(want_pair), got=T.show(got),
+        sites = _combiner_sites(fb, pids[1])
+        if len(sites) != 1:
+            R.unrecognised(rid, "fn:map_combine_one_side", "the combiner is called from %d places" % len(sites), fb["sp"])
+            continue
+        e = U.Ev(inline=inline)
+        try:
+            pe = U.per_element(fb, sites[0], e, {pids[1]: T.sym("combiner")}, {pids[0]: "map"})
+        except U.StreamError as x:
+            R.inst(rid, "source:map_combine_one_side", False, sp=fb["sp"], got=str(x), expect="every entry of the map, as it is",
+                   detail="all entries of the one-sided map are combined")
+            continue
+        _mutation_guard(R, rid, "map_combine_one_side", fb, pe["allowed"])
+        got = ("t", [pe["key"], pe["value"]])
+        want = ("t", [T.sym("k"), want_val(T.sym("v"))])
+        R.inst(rid, "pair:map_combine_one_side", got == want, sp=fb["sp"], expect=T.show(want), got=T.show(got),
                detail="every entry keeps its key; its value is combiner(value) and the combiner's error is propagated")
-        # what the closure is mapped over
-        maps = [m for m in H.walk(fb["body"]) if m.get("k") == "mcall" and m["name"] == "map" and any(H.peel(a) is clos[0] for a in m["args"])]
-        if not R.anchor(rid, "iterator .map(closure) in " + fname, len(maps) == 1, sp=fb["sp"]):
+        R.inst(rid, "source:map_combine_one_side", pe["sources"] == {("map", "entries")}, sp=fb["sp"], got=sorted(pe["sources"]),
+               expect="map.iter()", detail="all entries of the one-sided map are combined")
+    R.anchor(rid, "one-sided helper of zip_map_combination", bool(one_side))
+
+    for k in sorted(two_side):
+        fb = helpers[k]
+        pids = H.param_ids(fb)
+        if not R.anchor(rid, "zip_map(a, b, combiner)", len(pids) == 3, sp=fb["sp"]):
             continue
-        if fname == "map_combine_one_side":
-            p = PV.prov(maps[0]["recv"], PV.Ctx(fb["body"], roots={pids[0]: "map"}))
-            R.inst(rid, "source:map_combine_one_side", p.roots() == {"map"} and not (p.calls & (DROPPING | {"keys", "values"})),
-                   sp=maps[0]["sp"], got=p.show(), expect="map.iter()", detail="all entries of the one-sided map are combined")
-        else:
-            p = PV.prov(maps[0]["recv"], PV.Ctx(fb["body"], roots={pids[0]: "first", pids[1]: "second"}))
-            R.inst(rid, "source:zip_map", p.roots() == {"first", "second"} and {"keys", "get"} <= p.calls and not (p.calls & (DROPPING | {"values"})),
-                   sp=maps[0]["sp"], got=p.show(), expect="the (key, combination) pairs of all keys of both maps",
-                   detail="every key of the union is combined; nothing is filtered or skipped between the lookup and the combiner")
-
-    # ---- zip_map: presence table and key union
-    fb = A["zip_map"]
-    pids = H.param_ids(fb)
-    a_id, b_id = pids[0], pids[1]
-
-    def gets_on(c, pid):
-        return [g for g in H.walk(c) if g.get("k") == "mcall" and g["name"] == "get" and (H.local_of(g["recv"]) or (None,))[0] == pid]
-    clos = [c for c in H.walk(fb["body"]) if c.get("k") == "closure" and gets_on(c, a_id) and gets_on(c, b_id)]
-    clos = [c for c in clos if not any(d is not c and d.get("k") == "closure" and gets_on(d, a_id) and gets_on(d, b_id) for d in H.walk(c))]
-    if R.anchor(rid, "closure looking the key up in both maps (zip_map)", len(clos) == 1, sp=fb["sp"]):
-        c0 = clos[0]
+        a_id, b_id, comb_id = pids
+        sites = _combiner_sites(fb, comb_id)
+        if len(sites) != 1:
+            R.unrecognised(rid, "fn:zip_map", "the combiner is called from %d places (only the per-key call of the union is understood)" % len(sites), fb["sp"])
+            continue
+        shapes_ok = True
+        srcs = None
+        failed = None
+        allowed = []
         for cell, want_s in spec["zip"].items():
             if cell.startswith("_"):
                 continue
             pa, pb = [x == "present" for x in cell.split("/")]
-            e = U.Ev()
 
             def get(args, pa=pa, pb=pb):
                 if args[0] == T.sym("$first"):
@@ -359,21 +402,56 @@ def r09_1(q, R, spec):
                 if args[0] == T.sym("$second"):
                     return T.V("Some", T.sym("second")) if pb else NONE
                 return None
-            e.calls = {"get": get}
-            got = e.apply(("closure", c0, {a_id: T.sym("$first"), b_id: T.sym("$second")}), [T.sym("key")])
-            combos = [x for x in _subvalues(got) if x[0] == "v" and x[1] in ("A", "B", "AB")]
-            got_s = T.show(combos[0]) if len(combos) == 1 else T.show(got)
-            R.inst(rid, "cell:zip_map/%s" % cell, got_s == want_s, sp=c0["sp"], expect=want_s, got=got_s,
+            e = U.Ev(inline=inline, calls={"get": get})
+            env = {a_id: T.sym("$first"), b_id: T.sym("$second"), comb_id: T.sym("combiner")}
+            try:
+                pe = U.per_element(fb, sites[0], e, env, {a_id: "first", b_id: "second"})
+            except U.StreamError as x:
+                failed = str(x)
+                break
+            srcs = pe["sources"]
+            allowed = pe["allowed"]
+            v = pe["value"]
+            comb = v[2][0][2][0] if (v[0] == "v" and v[1] == "?" and v[2] and U.is_term(v[2][0], "combiner") and len(v[2][0][2]) == 1) else None
+            shapes_ok = shapes_ok and comb is not None
+            got_s = T.show(comb) if comb is not None else T.show(v)
+            R.inst(rid, "cell:zip_map/%s" % cell, got_s == want_s, sp=fb["sp"], expect=want_s, got=got_s,
                    detail="key looked up in the first map / the second map")
-            if len(combos) == 1 and got[0] == "t":
-                R.inst(rid, "cell:zip_map/%s/key-kept" % cell, T.sym("key") in got[1], sp=c0["sp"], got=T.show(got), nontrivial=False)
-        maps = [m for m in H.walk(fb["body"]) if m.get("k") == "mcall" and m["name"] == "map" and any(H.peel(x) is c0 for x in m["args"])]
-        if R.anchor(rid, "iterator .map(lookup closure) in zip_map", len(maps) == 1, sp=fb["sp"]):
-            p = PV.prov(maps[0]["recv"], PV.Ctx(fb["body"], roots={a_id: "first", b_id: "second"}))
-            ok = p.roots() == {"first", "second"} and "keys" in p.calls and not (p.calls & (DROPPING | {"values", "zip", "intersection", "difference"}))
-            R.inst(rid, "key-union:zip_map", ok, sp=maps[0]["sp"], got=p.show(), expect="first.keys() chained with second.keys()",
-                   detail="the looked-up keys are the keys of both maps (union), not of one side")
+            R.inst(rid, "cell:zip_map/%s/key-kept" % cell, pe["key"] == T.sym("key"), sp=fb["sp"], got=T.show(pe["key"]), nontrivial=False)
+        if failed is not None:
+            R.inst(rid, "source:zip_map", False, sp=fb["sp"], got=failed, expect="the keys of both maps, each looked up in both maps",
+                   detail="every key of the union is combined; nothing is filtered or skipped between the lookup and the combiner")
+            continue
+        _mutation_guard(R, rid, "zip_map", fb, allowed)
+        R.inst(rid, "pair:zip_map", shapes_ok, sp=fb["sp"], expect="(key, combiner(<combination>)?)",
+               detail="every key keeps its key; its value is combiner(combination) and the combiner's error is propagated")
+        R.inst(rid, "source:zip_map", True, sp=fb["sp"], got=sorted(srcs or []),
+               detail="every key of the union is combined; nothing is filtered or skipped between the lookup and the combiner")
+        R.inst(rid, "key-union:zip_map", srcs == {("first", "keys"), ("second", "keys")}, sp=fb["sp"], got=sorted(srcs or []),
+               expect="first.keys() chained with second.keys()", detail="the looked-up keys are the keys of both maps (union), not of one side")
+    R.anchor(rid, "two-sided helper of zip_map_combination", bool(two_side))
     R.floor(rid, 64)
+
+
+def _combiner_sites(fb, comb_id):
+    """call nodes that invoke / pass on the combiner parameter"""
+    out = []
+    for n in H.walk(fb["body"]):
+        if n.get("k") == "call":
+            l = U.local_callee(n)
+            if l and l[0] == comb_id:
+                out.append(n)
+        elif n.get("k") == "path" and n["res"].get("r") == "local" and n["res"]["id"] == comb_id:
+            out.append(("use", n))
+    calls = [n for n in out if isinstance(n, dict)]
+    # a bare use of the combiner that is not the callee of one of the calls (passed on to another function) counts as a site
+    return calls + [u for u in out if isinstance(u, tuple)]
+
+
+def _mutation_guard(R, rid, label, fb, allowed):
+    muts = [m for m in U.unmodelled_mutations(fb["body"]) if not any(m is a for a in allowed)]
+    if muts:
+        R.unrecognised(rid, "fn:" + label, "mutation besides the per-element accumulator: %s" % H.render(muts[0])[:120], muts[0].get("sp"))
 
 
 DROPPING = {"filter", "filter_map", "skip", "skip_while", "take", "take_while", "step_by", "rev", "nth", "last", "find", "flat_map"}
@@ -425,19 +503,18 @@ def r09_2(q, R, spec):
     R.rule(rid, "Mappings::merge level alignment: each output field is produced by the combiner of its kind (names->merge_names, "
                 "namespaces->merge_namespaces, child map->zip_map_combination into a literal of the child level, javadoc->merge_javadoc(_ab), "
                 "other->merge_equal) from the same field path of the same level of both inputs (A side first), with the error propagated by `?`")
-    merge = q.fn("merge", within=MERGE)
-    fns = {k: q.fn(k, within=MERGE) for k in ("merge_names", "merge_equal", "merge_javadoc", "merge_javadoc_ab", "merge_namespaces")}
-    zmc = q.fn("zip_map_combination", within=DM)
-    cmap = q.fn("map", impl_ty=DM + "Combination")
-    if not (R.anchor(rid, "fn Mappings::merge", merge) and all(R.anchor(rid, "fn " + k, v) for k, v in fns.items())
-            and R.anchor(rid, "fn zip_map_combination", zmc) and R.anchor(rid, "fn Combination::map", cmap)):
-        return
+    merge = _find_merge(q)
+    roles = {k: {} for k in ("names", "equal", "javadoc", "javadoc_top", "namespaces", "zip", "map")}
+    if not R.anchor(rid, "fn Mappings::merge (two &Mappings<2, _> -> Result<Mappings<3, _>>)", merge):
+        return roles
     pids = H.param_ids(merge)
     if not R.anchor(rid, "merge(a, b): two parameters", len(pids) == 2, sp=merge["sp"]):
-        return
+        return roles
     a_id, b_id = pids
-    key_of = {v["key"]: k for k, v in fns.items()}
     seen = {}
+
+    def is_repo_fn(ck):
+        return ck is not None and ck in q.by_key
 
     def callee_key(n):
         c = n.get("callee") or {}
@@ -450,12 +527,14 @@ def r09_2(q, R, spec):
     def projection(arg, ctx, path, root):
         """(ok, got) : `arg` is <level combination>.map(|x| &x.<path>)"""
         m = H.peel(arg)
-        if m.get("k") == "mcall" and m["name"] == "map" and callee_key(m) == cmap["key"] and len(m["args"]) == 1:
+        if (m.get("k") == "mcall" and is_repo_fn(callee_key(m)) and len(m["args"]) == 1
+                and (m["recv"].get("ty") or "").startswith(DM + "Combination<")):
             r = H.local_of(m["recv"])
             c = H.peel(m["args"][0])
             if r and ctx["kind"] == "comb" and same_local(r[0], ctx["x"], root) and c.get("k") == "closure" and len(c["params"]) == 1 and c["params"][0].get("k") == "bind":
                 root, fp = H.place_root(c["body"])
                 if root and root[0] == c["params"][0]["id"] and _plain(fp) == path and len(_plain(fp)) == len(fp):
+                    roles["map"][callee_key(m)] = roles["map"].get(callee_key(m), 0) + 1
                     return True, H.render(m)
         return False, H.render(m)
 
@@ -495,28 +574,39 @@ def r09_2(q, R, spec):
             expect = None
             child = None
             ck = callee_key(inner) if inner.get("k") == "call" else None
-            fname = key_of.get(ck)
+            fn_ok = is_repo_fn(ck)          # which function it is does not matter here: R09.1 evaluates it against the table of its kind
             args = inner.get("args", []) if inner.get("k") == "call" else []
+            role = None
             if kind in ("names", "equal"):
-                wantf = "merge_names" if kind == "names" else "merge_equal"
-                expect = "%s(<level>.map(|x| &x.%s))?" % (wantf, ".".join(fpath))
-                ok = fname == wantf and len(args) == 1 and projection(args[0], ctx, fpath, root)[0]
+                expect = "<%s combiner>(<level>.map(|x| &x.%s))?" % (kind, ".".join(fpath))
+                ok = fn_ok and len(args) == 1 and projection(args[0], ctx, fpath, root)[0]
+                role = kind
             elif kind == "namespaces":
-                expect = "merge_namespaces(&a.%s, &b.%s)?" % (".".join(fpath), ".".join(fpath))
-                ok = fname == "merge_namespaces" and pair(args, ctx, fpath)
+                expect = "<namespaces combiner>(&a.%s, &b.%s)?" % (".".join(fpath), ".".join(fpath))
+                ok = fn_ok and pair(args, ctx, fpath)
+                role = kind
             elif kind == "javadoc":
                 if ctx["kind"] == "comb":
-                    expect = "merge_javadoc(<level>)?"
+                    expect = "<javadoc combiner>(<level>)?"
                     l = H.local_of(args[0]) if len(args) == 1 else None
-                    ok = fname == "merge_javadoc" and bool(l) and same_local(l[0], ctx["x"], root) and path == []
+                    ok = fn_ok and bool(l) and same_local(l[0], ctx["x"], root) and path == []
+                    role = "javadoc"
                 else:
-                    expect = "merge_javadoc_ab(a, b)?"
-                    ls = [H.local_of(x) for x in args]
-                    ok = fname == "merge_javadoc_ab" and len(ls) == 2 and all(ls) and {ls[0][0], ls[1][0]} == {ctx["a"], ctx["b"]} and path == []
+                    expect = "<javadoc combiner>(a, b)?"
+                    a0 = H.peel(args[0]) if len(args) == 1 else {}
+                    if a0.get("k") == "call" and (H.ctor_of(a0) or (None, None))[1] == "AB":      # merge_javadoc(Combination::AB(a, b))
+                        ls = [H.local_of(x) for x in a0["args"]]
+                        ok = fn_ok and len(ls) == 2 and all(ls) and [ls[0][0], ls[1][0]] == [ctx["a"], ctx["b"]] and path == []
+                        role = "javadoc"
+                    else:
+                        ls = [H.local_of(x) for x in args]
+                        ok = fn_ok and len(ls) == 2 and all(ls) and {ls[0][0], ls[1][0]} == {ctx["a"], ctx["b"]} and path == []
+                        role = "javadoc_top"
             elif kind == "zip":
-                expect = ("zip_map_combination(<level>.map(|x| &x.%s), |child| Ok(<child literal>))?" if ctx["kind"] == "comb" else
-                          "zip_map_combination(Combination::AB(&a.%s, &b.%s), |child| Ok(<child literal>))?  (A side first)") % ((".".join(fpath),) * (1 if ctx["kind"] == "comb" else 2))
-                if ck == zmc["key"] and len(args) == 2:
+                expect = ("<zip>(<level>.map(|x| &x.%s), |child| Ok(<child literal>))?" if ctx["kind"] == "comb" else
+                          "<zip>(Combination::AB(&a.%s, &b.%s), |child| Ok(<child literal>))?  (A side first)") % ((".".join(fpath),) * (1 if ctx["kind"] == "comb" else 2))
+                role = "zip"
+                if fn_ok and len(args) == 2:
                     if ctx["kind"] == "comb":
                         okp = projection(args[0], ctx, fpath, root)[0]
                     else:
@@ -525,6 +615,8 @@ def r09_2(q, R, spec):
                                and pair(c0["args"], ctx, fpath))
                     child = _child_level(q, args[1])
                     ok = okp and child is not None
+            if ok and role:
+                roles[role][ck] = roles[role].get(ck, 0) + 1
             ok = ok and saw_try
             R.inst(rid, "field:" + key, ok, sp=f["e"]["sp"], expect=expect, got=H.render(f["e"])[:300],
                    detail=None if saw_try else "the combiner's error is not propagated with `?`")
@@ -534,7 +626,7 @@ def r09_2(q, R, spec):
 
     tops = [n for n in H.walk(merge["body"], into_closures=False) if n.get("k") == "struct" and (n.get("adt") or "") == MAPPINGS + "Mappings"]
     if not R.anchor(rid, "Mappings literal in merge", len(tops) == 1, sp=merge["sp"]):
-        return
+        return roles
     level(tops[0], {"kind": "top", "a": a_id, "b": b_id}, merge["body"], "Mappings", [])
     for e in spec["levels"]["expected"]:
         k = e.rsplit(":", 1)[0]
@@ -551,6 +643,18 @@ def r09_2(q, R, spec):
         got = U.Ev().run_fn(U.norm_body(acc), [val])
         R.inst(rid, "javadoc-accessor:" + lv, got == T.sym("self.javadoc"), sp=acc["sp"], expect="self.javadoc", got=T.show(got))
     R.floor(rid, len(spec["levels"]["expected"]) + len(levels))
+    return roles
+
+
+def _find_merge(q):
+    """Mappings::merge by role: takes two `&Mappings<2, _>` and returns `Result<Mappings<3, _>, _>`; the name breaks ties."""
+    m2 = "&" + MAPPINGS + "Mappings<2,"
+    cands = [b for b in q.bodies if len(b.get("inputs") or []) == 2 and all(i.startswith(m2) for i in b["inputs"])
+             and (b.get("output") or "").startswith("core::result::Result<" + MAPPINGS + "Mappings<3,")]
+    if len(cands) > 1:
+        named = [b for b in cands if b.get("name") == "merge"]
+        cands = named or cands
+    return cands[0] if len(cands) == 1 else None
 
 
 def _child_level(q, arg):
